@@ -39,4 +39,22 @@ example :
     (((Sys.init 10 10).run [.get 2, .write 0 1 7, .release 0, .get 2]).1.held.map (fun bc => bc.2.id))
       = [1, 1] := by decide
 
+/-- Continuation pools (luaContPool / goContPool): after ANY history of get/release operations
+(releases of continuations that are not live — double releases — excluded, as the VM's discipline),
+no continuation is both live and pooled, none is pooled twice, so `get` never hands out a
+continuation that is still in use. -/
+theorem contpool_no_alias (cap : Nat) (ops : List COp) :
+    let s := CSys.run (CSys.init cap) ops
+    (s.live ++ s.pool.conts).Nodup ∧ (s.pool.get).2 ∉ s.live := by
+  have h := cinv_run ops _ (cinv_init cap)
+  refine ⟨h.1, ?_⟩
+  have h2 := cinv_step _ COp.get h
+  simp only [CSys.step] at h2
+  have := h2.1
+  simp only [List.cons_append, List.nodup_cons, List.mem_append, not_or] at this
+  exact this.1.1
+
+-- non-vacuity: a history in which a released continuation is handed out again
+example : (CSys.run (CSys.init 100) [.get, .get, .release 1, .get]).live = [1, 2] := by decide
+
 end GoluaVerif.Props.C14
